@@ -64,5 +64,5 @@ PROPERTY = {
                "orders": "every permutation of the definitions for the second run; every map range takes every rotation of the slot order (what go1.23 produces for maps of <=8 entries), independently per range and per run"},
     "assumptions": ["inside generateSetID, json.Marshal is an injective function of the value and the SHA-256 CID an injective function of the bytes (both replaced inside the solver run: canonical serialisation, identity multihash; the real ones run natively); the rest of generateSetID runs for real",
                     "map iteration orders of the runtime for small maps are rotations of the slot order"],
-    "outside_claim": ["document ids (client.Document.Bytes, canonical CBOR, CID, UUIDv5)", "collection ids assigned by sequences", "schemas added in several calls"],
+    "outside_claim": ["the hash functions behind document ids (SHA-256 CID, UUIDv5) and the CBOR encoder itself (modelled as injective with sorted map keys); array / JSON / relation field values in document ids", "collection ids assigned by sequences", "schemas added in several calls"],
 }
